@@ -55,6 +55,10 @@ def strip_identity(e):
 
 def run(repo, rep, tier):
     rep.explanation = EXPL
+    # the banner is reported as sent: the only transformation between the line read from the peer and the report is the printable-ASCII sanitiser, which must
+    # leave every printable character (32..126) alone and replace exactly the others (shared with C16: props/_bannerparse.check_print_helpers, by interpretation)
+    from props import _bannerparse as _BP01
+    _BP01.check_print_helpers(repo, rep, 'banner')
     kex_cls = repo.cls('ssh2_kex', 'SSH2_Kex')
     party_cls = repo.cls('ssh2_kexparty', 'SSH2_KexParty')
     parse = repo.func('ssh2_kex', 'SSH2_Kex.parse')
